@@ -276,8 +276,9 @@ def c09(ctx, rep):
     rep.trust(*TRUST_SECRET)
     rep.assume("passlib's outputs decode with independent decoders (third-party)", "$9$ decodability is C18")
     classifier.check(ctx, rep, "C09")
-    from .checks_pipe import stream_open_rule
+    from .checks_pipe import stream_open_rule, line_loop_rules
     stream_open_rule(ctx, rep, "C09")
+    line_loop_rules(ctx, rep, "C09")  # "all text before and after it on the line is kept in place": what is written for a line is the stage chain's result for that very line
     _juniper_standard_tables(ctx, rep, "C09")
     secret_flow.check_anonymize_value(ctx, rep, "C09")
     _pfx, _grps, _parts = secret_struct.check_table(ctx, rep, "C09", want_catchalls=False)
